@@ -493,8 +493,9 @@ class Frame:
                         else:
                             part(fn_, arg)
                 self._plain_iter = saved_plain
-                keys = {p[0] for p in parts}
-                key = parts[0][0] if len(keys) == 1 else ('zip', tuple(p[0] for p in parts))
+                keys = T.sort_terms({p[0] for p in parts})
+                # the positions visited are those common to all operands; which operand is named first does not matter
+                key = keys[0] if len(keys) == 1 else ('zip', tuple(keys))
                 lv = ('lv', key, depth)
                 elems = []
                 for (k, l, e) in parts:
@@ -533,7 +534,7 @@ class Frame:
         if not self._plain_iter and it[0] == 'call' and it[1] == 'flatnonzero' and len(it[2]) == 1 and (T._masklike(T.strip_nd(it[2][0])) or T.is_boolarr(it[2][0])):
             # the positions where a mask is set, in order == all positions, skipping those where it is not
             m = T.strip_nd(it[2][0])
-            key = ('range', C(0), T.length(m), C(1))
+            key = _mask_key(m)
             lv = ('lv', key, depth)
             self._iter_guard = T.and_([self._iter_guard, T.index(m, lv)])
             return key, lv, lv
@@ -1447,6 +1448,33 @@ def _read_before_write(body, targets=()):
 
 
 TERM_BUDGET = int(os.environ.get('VERIF_TERM_BUDGET', '1000000'))
+
+
+def _mask_key(m):
+    """positions of an element-wise condition: those common to its array operands (the same key zip() gives to the operands themselves)"""
+    leaves = []
+
+    def go(t):
+        if t[0] in ('cmp0', 'binv', 'not'):
+            go(t[2] if t[0] == 'cmp0' else t[1])
+        elif t[0] in ('band', 'bor'):
+            for x in t[1]:
+                go(x)
+        elif t[0] == 'cmp':
+            go(t[2]); go(t[3])
+        elif t[0] == 'lin':
+            for x, c in t[2]:
+                go(x)
+        elif t[0] in ('mul',):
+            for x in t[1]:
+                go(x)
+        elif t[0] == 'div':
+            go(t[1]); go(t[2])
+        elif not T.is_scalar(t) and not T.isconst(t):
+            leaves.append(t)
+    go(m)
+    keys = T.sort_terms({('range', C(0), T.length(x), C(1)) for x in leaves}) if leaves else (('range', C(0), T.length(m), C(1)),)
+    return keys[0] if len(keys) == 1 else ('zip', tuple(keys))
 
 
 def _boolish(t):
